@@ -39,10 +39,16 @@ func sortedKeys(m map[string]any) []string {
 	return ks
 }
 
-// norm brings a typed map (map[string]string) to the generic form map[string]any; nested
+// NMap is a defined (named) map type with the underlying type map[string]any: an unusual but
+// legal chunk / value type of a lambda (flags NOut / NIn of a spec).
+type NMap map[string]any
+
+// norm brings a typed map (map[string]string, NMap) to the generic form map[string]any; nested
 // values are normalised as well. Strings and generic maps are returned as they are.
 func norm(x any) any {
 	switch t := x.(type) {
+	case NMap:
+		return norm(map[string]any(t))
 	case map[string]string:
 		m := make(map[string]any, len(t))
 		for k, v := range t {
@@ -56,6 +62,9 @@ func norm(x any) any {
 				typed = true
 			}
 			if _, ok := v.(map[string]any); ok {
+				typed = true
+			}
+			if _, ok := v.(NMap); ok {
 				typed = true
 			}
 		}
@@ -178,6 +187,20 @@ func concatAny(chunks []any) (any, error) {
 			}
 		}
 		return out, nil
+	case NMap:
+		plain := make([]any, len(chunks))
+		for i, c := range chunks {
+			m, ok := c.(NMap)
+			if !ok {
+				return nil, fmt.Errorf("node: chunk types differ: NMap, %T", c)
+			}
+			plain[i] = map[string]any(m)
+		}
+		out, err := concatAny(plain)
+		if err != nil {
+			return nil, err
+		}
+		return NMap(out.(map[string]any)), nil
 	case map[string]any:
 		groups := map[string][]any{}
 		for _, c := range chunks {
@@ -246,6 +269,12 @@ func splitStr(pol int, s string) []string {
 // one empty chunk
 func perKey(v any) []any {
 	switch t := v.(type) {
+	case NMap:
+		var out []any
+		for _, c := range perKey(map[string]any(t)) {
+			out = append(out, NMap(c.(map[string]any)))
+		}
+		return out
 	case map[string]string:
 		if len(t) == 0 {
 			return []any{map[string]string{}}
@@ -330,6 +359,9 @@ func conv[O any](y any) O {
 		return v
 	}
 	if m, ok := y.(map[string]any); ok {
+		if _, named := any(*new(O)).(NMap); named {
+			return any(NMap(m)).(O)
+		}
 		ms := make(map[string]string, len(m))
 		for k, v := range m {
 			ms[k] = v.(string)
@@ -362,6 +394,9 @@ type NSpec struct {
 	// input key whose value is such a map). What the node computes does not depend on it.
 	TOut bool `json:"tout,omitempty"`
 	TIn  bool `json:"tin,omitempty"`
+	// NOut / NIn: the lambda's static map type is the named type NMap (underlying map[string]any)
+	NOut bool `json:"nout,omitempty"`
+	NIn  bool `json:"nin,omitempty"`
 	// Spare: an array-backed output stream is built over a slice with that much spare capacity
 	// (a slice grown with append); copies of an array-backed stream share the slice
 	Spare int `json:"spare,omitempty"`
@@ -714,6 +749,8 @@ func mkLambdaI[I any](sp *NSpec, rec *recorder) *compose.Lambda {
 		return mkLambdaT[I, string](sp, rec)
 	case sp.TOut:
 		return mkLambdaT[I, map[string]string](sp, rec)
+	case sp.NOut:
+		return mkLambdaT[I, NMap](sp, rec)
 	}
 	return mkLambdaT[I, map[string]any](sp, rec)
 }
@@ -724,6 +761,8 @@ func mkLambda(sp *NSpec, rec *recorder) *compose.Lambda {
 		return mkLambdaI[string](sp, rec)
 	case sp.TIn:
 		return mkLambdaI[map[string]string](sp, rec)
+	case sp.NIn:
+		return mkLambdaI[NMap](sp, rec)
 	}
 	return mkLambdaI[map[string]any](sp, rec)
 }
